@@ -71,7 +71,11 @@ def r2(ctx):
             runs = [sg for sg in segs if sg.kind in ('each', 'nest')]
             if len(segs) >= 1 and all(sg.kind != 'opaque' for sg in segs):
                 CHARS_ = Call('CharString::chars', Call('CharString::new', ('arg', 2, ANY), ANY))
-                ctx.require(len(runs) == 1 and len(segs) == 1 and (match(core(runs[0].src), Call('Iterator::enumerate', CHARS_)) or match(core(runs[0].src), CHARS_)) and not runs[0].conds,
+                from rules.common import range_bounds as _rb
+                rb_ = _rb(runs[0].src) if len(runs) == 1 else None
+                # ... or over the positions 0..cs.len() of the same CharString
+                by_pos = rb_ is not None and rb_[0] == 0 and not isinstance(rb_[1], int) and match(core(rb_[1]), Call('CharString::len', Call('CharString::new', ('arg', 2, ANY), ANY)))
+                ctx.require(len(runs) == 1 and len(segs) == 1 and (match(core(runs[0].src), Call('Iterator::enumerate', CHARS_)) or match(core(runs[0].src), CHARS_) or by_pos) and not runs[0].conds,
                             tf[0], 'single-pass', 'the result is one pass over enumerate(CS::new(text, use_graphemes).chars())',
                             'the result is built as %s' % [repr(x)[:120] for x in segs])
     f, outer, inner = _anchors(ctx)
